@@ -7,20 +7,30 @@ import numpy as np
 from ..common import run_driver, q2s, seed_rng
 from ..exact import NEWTON_COTES, enc_list, enc_rule1, enc_scheme, farr, rand_frac, rand_rule
 
-PROP_MODS = ['Stbem.Props.C15']
+PROP_MODS = ['Stbem.Props.C15', 'Stbem.Props.QuadTie', 'Stbem.Props.QuadTieUses', 'Stbem.Props.QuadCtorTie']
 RULE = ('correspondence: random rational base rules (1-4 nodes) and boxes, every constructor / mirror '
         'combination of src/quadrature.py run on Fraction arrays and compared element-by-element with the Lean '
-        'model; non-trivial = rule with >= 2 nodes on a non-unit box; distinct = distinct (constructor chain, '
+        'model AND with the definitions regenerated from the source text (Gen/QuadGen.lean, requests g1/g2/g3 = twins of '
+        'q1/q2/q3; in addition the a == b shortcut, the size assertions of integrate at the binary64 thresholds, '
+        'ProductScheme2D with the default second rule, the eight *_quadrature_scheme constructors on key-encoding '
+        'stand-in tables (gc), and every function of the NumPy prelude against NumPy itself (gnp)); '
+        'non-trivial = rule with >= 2 nodes on a non-unit box; distinct = distinct (constructor chain, '
         'rule, box, integrand). search: exact Newton-Cotes rules and the tabulated float rules through the real '
         'classes against closed-form monomial integrals.')
 TRUSTED = [
     'Lean 4.33 kernel; axioms propext, Classical.choice, Quot.sound only',
-    'correspondence harness harness/checks/C15.py + Lean driver parser (Driver/QuadCmd.lean)',
-    'Python semantics: Fraction arithmetic is exact; NumPy object arrays apply Python operators element-wise; '
-    'order of np.repeat/tile/kron/hstack',
+    'correspondence harness harness/checks/C15.py + Lean driver parser (Driver/QuadCmd.lean, Driver/QuadGenCmd.lean)',
+    'translate/quadgen.py (ast of src/quadrature.py -> Gen/QuadGen.lean, regenerated on every run) and its NumPy prelude '
+    '(element order of np.repeat/tile/kron/hstack/vstack, broadcasting scalar o array): every generated function is run '
+    'against the real class on Fraction arrays, every prelude function against NumPy; Props/QuadTie.lean proves the '
+    'generated functions equal to the hand-written model lean/Stbem/Model/Quad.lean for all rules',
+    'Python semantics: Fraction arithmetic is exact; NumPy object arrays apply Python operators element-wise',
     'modelled, not verified: binary64 rounding of np.dot when a rule is used with floats',
 ]
-ASSUMPTIONS = ['exact arithmetic (floats are rationals); the size assertions of integrate() are preconditions',
+ASSUMPTIONS = ['exact arithmetic (floats are rationals); the size assertions of integrate() are preconditions of the hand-written '
+               'model and are modelled (Except.error "assert:size" at the binary64 thresholds) by the functions regenerated from '
+               'the source; scheme objects are well formed (rows of points as long as weights) and their arrays are not mutated '
+               'in place by callers',
                'exactness on a general box follows from exactness on the reference box by the affine pull-back '
                'identity integrate*_eq (change of variables for polynomials is classical, not formalised)']
 
@@ -90,6 +100,169 @@ def rand_box(rng, dim):
     return out
 
 
+def translate_quadgen(res):
+    """Regenerates lean/Stbem/Gen/QuadGen.lean (every class, method and function of src/quadrature.py except the
+    quadpy wrapper) from the working tree of the repository under test; a construct the translator does not
+    understand raises (= broken obligation)."""
+    import os
+    import sys
+    from ..common import LEAN, REPO, VERIF, write_if_changed
+    sys.path.insert(0, os.path.join(VERIF, 'translate'))
+    import subprocess
+    import quadgen
+
+    def compiles(text):
+        # a changed file is compiled on its own (it imports nothing) before it replaces Gen/QuadGen.lean, which the driver links
+        tmp = os.path.join(LEAN, '.lake', 'quadgen_check_%d.lean' % os.getpid())
+        with open(tmp, 'w') as fh:
+            fh.write(text)
+        try:
+            p = subprocess.run(['lake', 'env', 'lean', tmp], cwd=LEAN, stdout=subprocess.PIPE, stderr=subprocess.STDOUT, text=True,
+                               timeout=600)
+        finally:
+            os.unlink(tmp)
+        return None if p.returncode == 0 else p.stdout[-2000:]
+    stats = quadgen.generate(REPO, os.path.join(LEAN, 'Stbem', 'Gen'), write_if_changed, compiles)
+    res.bump('generated_file_changed', stats.get('changed', 0))
+    for k in ('classes', 'constructors', 'methods', 'memo_methods', 'module_functions', 'assignments', 'branches', 'returns',
+              'asserts', 'isinstance_asserts', 'numpy_calls', 'array_ops', 'float_constants', 'external_rule_calls'):
+        res.bump('translated_' + k, stats.get(k, 0))
+    res.count(('translated', 'quadrature.py'), True, n=stats.get('assignments', 0) + stats.get('returns', 0))
+    return stats
+
+
+def translate(res):
+    translate_quadgen(res)
+    # the key maps of the Gauss constructors as recorded by C05's translator (its own ast pattern on src/quadrature.py):
+    # Gen/CtorKeys.lean, compared with the regenerated constructors in Props/QuadCtorTie.lean
+    import os
+    import sys
+    from ..common import LEAN, REPO, VERIF, write_if_changed
+    sys.path.insert(0, os.path.join(VERIF, 'translate'))
+    import rules as T
+    T.generate_ctor_keys(REPO, os.path.join(LEAN, 'Stbem', 'Gen'), write_if_changed)
+
+
+GEN_TWIN = {'q1': 'g1', 'q2': 'g2', 'q3': 'g3'}
+
+
+def standin_rule(*ks):
+    """Rule table stand-in that encodes the key it is asked for (the same as Driver/QuadGenCmd.lean standIn1/2); the
+    entries are Q numbers so that the float literals 0.5 / 1.0 of gauss_quadrature_scheme are absorbed exactly."""
+    from ..qnum import Q as QN
+    n = F(int(ks[0]))
+    m = F(int(ks[1])) if len(ks) > 1 else F(0)
+    pts, wts = np.empty(2, dtype=object), np.empty(2, dtype=object)
+    pts[0], pts[1] = QN(n), QN(m + F(1, 7))
+    wts[0], wts[1] = QN(n / 3 - m), QN(2)
+    return pts, wts
+
+
+class _NPShim:
+    """`np` of src.quadrature with `np.polynomial.legendre.leggauss` replaced by the stand-in table"""
+    class _Leg:
+        leggauss = staticmethod(standin_rule)
+
+    class _Poly:
+        pass
+
+    def __init__(self):
+        self.polynomial = self._Poly()
+        self.polynomial.legendre = self._Leg()
+
+    def __getattr__(self, k):
+        return getattr(np, k)
+
+
+def corr_constructors(Qm, add):
+    """The eight *_quadrature_scheme constructors: the real functions with the tabulated rule functions replaced (in the
+    harness process) by the key-encoding stand-in, against the generated functions on the same stand-in."""
+    one = {'gauss': ('gauss_quadrature_scheme', None), 'gauss_sqrtinv': ('gauss_sqrtinv_quadrature_scheme', 'gauss_sqrtinv_quadrature_rule'),
+           'gauss_x': ('gauss_x_quadrature_scheme', 'gauss_x_quadrature_rule'), 'gauss_log': ('gauss_log_quadrature_scheme', 'gauss_log_quadrature_rule')}
+    two = {'log': ('log_quadrature_scheme', 'log_quadrature_rule'), 'log_log': ('log_log_quadrature_scheme', 'log_log_quadrature_rule'),
+           'sqrt': ('sqrt_quadrature_scheme', 'sqrt_quadrature_rule'), 'sqrtinv': ('sqrtinv_quadrature_scheme', 'sqrtinv_quadrature_rule')}
+    saved = {k: getattr(Qm, k) for k in ['np'] + [v[1] for v in list(one.values()) + list(two.values()) if v[1]]}
+    try:
+        Qm.np = _NPShim()
+        for v in list(one.values()) + list(two.values()):
+            if v[1]:
+                setattr(Qm, v[1], standin_rule)
+
+        def run(fn, *a):
+            try:
+                return enc_scheme(fn(*a))
+            except AssertionError:
+                return 'error:assert:odd'
+        for tag, (fname, _) in one.items():
+            for n in range(-4, 27):
+                add('gc %s %d' % (tag, n), run(getattr(Qm, fname), n), ('ctor', tag, n), True)
+        for tag, (fname, _) in two.items():
+            for n, m in itertools.product(range(-1, 8), range(-1, 5)):
+                add('gc %s %d %d' % (tag, n, m), run(getattr(Qm, fname), n, m), ('ctor', tag, n, m), True)
+    finally:
+        for k, v in saved.items():
+            setattr(Qm, k, v)
+
+
+def corr_numpy_prelude(rng, add, n_rep):
+    """Every function of the NumPy prelude of Gen/QuadGen.lean against NumPy itself on Fraction object arrays."""
+    def ra(n):
+        return farr([F(rng.randint(-9, 9), rng.randint(1, 6)) for _ in range(n)])
+
+    def rm(k, n):
+        m = np.empty((k, n), dtype=object)
+        for i in range(k):
+            m[i, :] = ra(n)
+        return m
+
+    def el(xs):   # driver output syntax (an empty array prints as the empty string)
+        return ','.join(q2s(x) for x in xs)
+
+    def em(m):
+        return ';'.join(el(r) for r in m)
+    ops = {'add': lambda u, v: u + v, 'sub': lambda u, v: u - v, 'mul': lambda u, v: u * v, 'div': lambda u, v: u / v}
+    for rep in range(n_rep):
+        n, k = rng.randint(1, 5), rng.randint(0, 4)
+        a, b = ra(n), ra(rng.randint(1, 4))
+        add('gnp repeat %s %d' % (enc_list(a), k), el(np.repeat(a, k)), ('np', 'repeat', rep))
+        add('gnp tile %s %d' % (enc_list(a), k), el(np.tile(a, k)), ('np', 'tile', rep))
+        add('gnp kron %s %s' % (enc_list(a), el(b)), el(np.kron(a, b)), ('np', 'kron', rep))
+        add('gnp hstack %s %s %s' % (enc_list(a), el(b), el(a)), el(np.hstack([a, b, a])), ('np', 'hstack', rep))
+        add('gnp hstack %s %s' % (enc_list(a), el(b)), el(np.concatenate([a, b])), ('np', 'concatenate', rep))
+        c = ra(n)
+        add('gnp dot %s %s' % (enc_list(a), el(c)), q2s(np.dot(a, c)), ('np', 'dot', rep))
+        add('gnp sum %s' % enc_list(a), q2s(sum(a)), ('np', 'sum', rep))
+        add('gnp array %s' % enc_list(a), el(np.array(list(a))), ('np', 'array', rep))
+        add('gnp array %s' % enc_list(a), el(np.asarray(a)), ('np', 'asarray', rep))
+        add('gnp len %s' % enc_list(a), str(len(a)), ('np', 'len', rep))
+        add('gnp pow %s %d' % (enc_list(a), k), el(a**k), ('np', 'pow', rep))
+        add('gnp neg %s' % enc_list(a), el(-a), ('np', 'neg', rep))
+        s = F(rng.randint(1, 9), rng.randint(1, 4))
+        cn = farr([v if v != 0 else F(1, 7) for v in c])
+        for nm, f in ops.items():
+            add('gnp sa %s %s %s' % (nm, q2s(s), el(cn)), el(f(s, cn)), ('np', 'sa', nm, rep))
+            add('gnp as %s %s %s' % (nm, enc_list(a), q2s(s)), el(f(a, s)), ('np', 'as', nm, rep))
+            add('gnp aa %s %s %s' % (nm, enc_list(a), el(cn)), el(f(a, cn)), ('np', 'aa', nm, rep))
+        rows = rng.randint(2, 3)
+        m1, m2, m3 = rm(rows, n), rm(rows, rng.randint(1, 3)), rm(rows, rng.randint(1, 3))
+        add('gnp arraym %s' % em(m1), em(np.array([r for r in m1])), ('np', 'arraym', rep))
+        add('gnp shape1 %s' % em(m1), str(m1.shape[1]), ('np', 'shape1', rep))
+        i = rng.randrange(rows)
+        add('gnp row %s %d' % (em(m1), i), el(m1[i]), ('np', 'row', rep))
+        add('gnp repeat1 %s %d' % (em(m1), k), em(np.repeat(m1, k, axis=1)), ('np', 'repeat1', rep))
+        add('gnp hstackm %s %s %s' % (em(m1), em(m2), em(m3)), em(np.hstack([m1, m2, m3])), ('np', 'hstackm', rep))
+        # a list of 1-D arrays counts as a 2-D array for hstack (the T1..T6 / P1..P3 lists of the 3-D Duffy schemes)
+        add('gnp hstackm %s %s' % (em(m1), em(m2)), em(np.hstack([[r for r in m1], [r for r in m2]])), ('np', 'hstackm-lists', rep))
+        add('gnp vstack %s %s' % (em(m1), el(c)), em(np.vstack([m1, c])), ('np', 'vstack', rep))
+        f1, f2, f3 = rand_fun(rng, 1), rand_fun(rng, 2), rand_fun(rng, 3)
+        pa = farr([abs(v) for v in a])
+        add('gnp map1 %s %s' % (f1, enc_list(pa)), el(np.asarray(mk_fun(f1)(pa))), ('np', 'map1', rep))
+        p2 = np.array([[abs(v) for v in r] for r in rm(2, n)], dtype=object)
+        add('gnp map2 %s %s' % (f2, em(p2)), el(np.asarray(mk_fun(f2)(p2))), ('np', 'map2', rep))
+        p3 = np.array([[abs(v) for v in r] for r in rm(3, n)], dtype=object)
+        add('gnp map3 %s %s' % (f3, em(p3)), el(np.asarray(mk_fun(f3)(p3))), ('np', 'map3', rep))
+
+
 def correspond(res, tier):
     from src import quadrature as Q
     rng = seed_rng(res.seed, 'C15')
@@ -100,6 +273,21 @@ def correspond(res, tier):
         lines.append(line)
         expect.append(value)
         meta.append((key, nontrivial))
+        # the same request to the definition regenerated from the source text (Gen/QuadGen.lean)
+        head, _, tail = line.partition(' ')
+        if head in GEN_TWIN:
+            lines.append(GEN_TWIN[head] + ' ' + tail)
+            expect.append(value)
+            meta.append((('gen', ) + tuple(key), nontrivial))
+
+    def try_int(s, f, *box):
+        try:
+            return q2s(s.integrate(f, *box))
+        except AssertionError:
+            return 'error:assert:size'
+
+    corr_constructors(Q, add)
+    corr_numpy_prelude(seed_rng(res.seed, 'C15np'), add, 12 if tier == 'quick' else 120)
 
     for case in range(n_cases):
         px, wx = rand_rule(rng)
@@ -115,14 +303,25 @@ def correspond(res, tier):
             ('int1', ex, f1, a, b), nt)
         add('q1 int %s %s %s %s' % (enc_scheme(sx.mirror()), f1, q2s(a), q2s(b)),
             q2s(sx.mirror().integrate(mk_fun(f1), a, b)), ('int1m', ex, f1, a, b), nt)
+        # the `a == b` shortcut (hand model and generated), and the size assertion `b - a > 1e-5` at the binary64
+        # threshold (generated model only: the hand model leaves the assertion to the caller)
+        add('q1 int %s %s %s %s' % (ex, f1, q2s(a), q2s(a)), q2s(sx.integrate(mk_fun(f1), a, a)), ('int1eq', ex, f1, a), nt)
+        h1 = rng.choice([F(1, 100000), F(1e-5), F(1e-5) + F(1, 10**22), F(1, 99999), F(1, 10**6), F(-1, 2), F(3, 100000)])
+        add('g1 int %s %s %s %s' % (ex, f1, q2s(a), q2s(a + h1)), try_int(sx, mk_fun(f1), a, a + h1), ('int1size', ex, f1, a, h1), nt)
         # 2-D
         p2 = Q.ProductScheme2D(sx, sy)
         e2 = enc_scheme(p2)
         add('q2 product %s %s' % (ex, ey), e2, ('product2', ex, ey), nt)
+        add('g2 product1 %s' % ex, enc_scheme(Q.ProductScheme2D(sx)), ('product2-default', ex), nt)
         add('q2 mirx ' + e2, enc_scheme(p2.mirror_x()), ('mirx2', e2), nt)
         add('q2 miry ' + e2, enc_scheme(p2.mirror_y()), ('miry2', e2), nt)
         box2 = rand_box(rng, 2)
         f2 = rand_fun(rng, 2)
+        # size assertion of QuadScheme2D.integrate (`> 1e-7` in both directions) at the binary64 threshold
+        h2 = rng.choice([F(1, 10**7), F(1e-7), F(1e-7) + F(1, 10**24), F(1, 9999999), F(1, 10**8), F(-1, 3), F(1)])
+        bx = [box2[0], box2[0] + h2, box2[2], box2[3]] if rng.random() < 0.5 else [box2[0], box2[1], box2[2], box2[2] + h2]
+        add('g2 int %s %s %s' % (e2, f2, ' '.join(q2s(v) for v in bx)), try_int(p2, mk_fun(f2), *bx),
+            ('int2size', e2, f2, tuple(bx)), nt)
         for sym in (False, True):
             d2 = Q.DuffyScheme2D(p2, symmetric=sym)
             ed = enc_scheme(d2)
@@ -194,9 +393,13 @@ def correspond(res, tier):
     for line, want, got, (key, nt) in zip(lines, expect, out, meta):
         res.count(key, nt)
         res.bump('ops_' + line.split()[0] + '_' + line.split()[1])
+        if want.startswith('error:'):
+            res.bump('expected_' + want.replace(':', '_'))
         if want != got:
-            res.broken_obligation('correspondence C15: model and src/quadrature.py differ',
-                                  'line: %s\npython: %s\nmodel:  %s' % (line[:600], want[:600], got[:600]))
+            who = ('the definitions regenerated from the source (Gen/QuadGen.lean, translate/quadgen.py)'
+                   if line[0] == 'g' else 'the hand-written model (Model/Quad.lean)')
+            res.broken_obligation('correspondence C15: %s and src/quadrature.py differ' % who,
+                                  'line: %s\npython: %s\nlean:   %s' % (line[:600], want[:600], got[:600]))
             break
 
 
@@ -314,6 +517,32 @@ def search(res, tier, boost=False):
                 if g1 != g2:
                     fail('C15:duffyid-sym-agree', deg=deg, sym=q2s(g1), nonsym=q2s(g2))
 
+    # tensor products of two DIFFERENT base rules (different numbers of nodes): node order of repeat / tile / kron matters;
+    # both rules are exact to n = min(deg_x, deg_y), so each exponent <= n (tensor) resp. total degree <= n - 1 (Duffy)
+    rng_mixed = seed_rng(res.seed, 'C15mixed')   # own stream: the streams of the other blocks stay as they were
+    for dx, dy in itertools.permutations(sorted(NEWTON_COTES), 2):
+        if not boost and tier == 'quick' and (dx, dy) not in ((1, 3), (3, 1), (5, 3), (3, 7)):
+            continue
+        bx, by = (Q.QuadScheme1D(farr(p), farr(w)) for p, w in (NEWTON_COTES[dx], NEWTON_COTES[dy]))
+        n = min(dx, dy)
+        pxy = Q.ProductScheme2D(bx, by)
+        box = rand_box(rng_mixed, 2)
+        area = (box[1] - box[0]) * (box[3] - box[2])
+        for name, s0, dmax, mode in (('product-mixed', pxy, n, 'each'), ('duffy-mixed', Q.DuffyScheme2D(pxy, False), n - 1, 'total')):
+            for mir in ('', 'x', 'y'):
+                s = s0 if not mir else getattr(s0, 'mirror_' + mir)()
+                tot = s.integrate(lambda x: 0 * x[0] + 1, *box)
+                res.count(('measure2', dx, dy, name, mir, tuple(box)))
+                if dmax >= 0 and tot != area:
+                    fail('C15:measure:%s:%s' % (name, mir), deg=[dx, dy], box=[q2s(v) for v in box], got=q2s(tot), want=q2s(area))
+                for i, j in itertools.product(range(n + 1), repeat=2):
+                    if mode == 'each' or i + j <= dmax:
+                        got = s.integrate(lambda x: x[0]**i * x[1]**j, *box)
+                        want = mono_box((i, j), box)
+                        res.count(('mono2', dx, dy, name, mir, i, j, tuple(box)))
+                        if got != want:
+                            fail('C15:exact2:%s:%s' % (name, mir), deg=[dx, dy], i=i, j=j, box=[q2s(v) for v in box],
+                                 got=q2s(got), want=q2s(want))
     # float stream, 1-D: every base rule and its mirror on targets with side in [1e-4, 1e3] at offsets up to 1e3
     # (shifted monomials ((x-a)/(b-a))^k are well conditioned at any offset; their integral is (b-a)/(k+1))
     from src.quadrature_rules import LOG_QUAD_RULES
@@ -340,6 +569,8 @@ def search(res, tier, boost=False):
             hs = [10.0**rng.uniform(-4, 3) for _ in range(3)]
             os_ = [rng.choice([0.0, 10.0, 1000.0]) for _ in range(3)]
             box = [os_[0], os_[0] + hs[0], os_[1], os_[1] + hs[1], os_[2], os_[2] + hs[2]]
+            # the sides the scheme sees are b - a of the rounded end points (o + h differs from h by eps |o|)
+            hs = [box[1] - box[0], box[3] - box[2], box[5] - box[4]]
             vol = hs[0] * hs[1] * hs[2]
             for e in ((0, 0, 0), (1, 0, 0), (0, 1, 1), (1, 1, 1), (2, 0, 1)):
                 if sum(e) > dmax:
@@ -347,7 +578,10 @@ def search(res, tier, boost=False):
                 got = s3.integrate(lambda x: ((x[0] - box[0]) / hs[0])**e[0] * ((x[1] - box[2]) / hs[1])**e[1] * ((x[2] - box[4]) / hs[2])**e[2], *box)
                 want = vol / ((e[0] + 1) * (e[1] + 1) * (e[2] + 1))
                 res.count(('f3', sname, e, tuple(box)))
-                if abs(got - want) > 1e-10 * vol:
+                # conditioning of the shifted monomial itself: x = o + h p is rounded to eps |o|, i.e. (x - o) / h moves by
+                # eps |o| / h (2e-9 at offset 1000, side 1e-4); not an error of the scheme
+                cond = sum(e[d] * (abs(os_[d]) + hs[d]) / hs[d] for d in range(3))
+                if abs(got - want) > (1e-10 + 8 * 2.3e-16 * cond) * vol:
                     fail('C15:float-exact3:%s' % sname, e=list(e), box=box, got=float(got), want=want)
     # float stream: tabulated log rules and Gauss rules through the real constructors
     keys = LOG_QUAD_RULES if (tier == 'thorough' or boost) else rng.sample(LOG_QUAD_RULES, 6)
